@@ -164,7 +164,11 @@ class Scenario:
                 except Exception:
                     sg = None
             if sg != '>0':
-                core.CTX.assume.append(core.cmp('gt', n, core.C(0)))
+                pre = core.cmp('gt', n, core.C(0))
+                if core.CTRL is not None and core.CTRL.pc:
+                    core.CTRL.assume_local(pre)      # stated after decisions: path-local (see assume)
+                else:
+                    core.CTX.assume.append(pre)
                 self.note(f'validity precondition assumed: {name} > 0')
         tab = core.CTX.__dict__.setdefault('_abs', {})
         a = tab.get(n.id)
